@@ -2156,6 +2156,145 @@ def check_forget_scope(ck, cm: CacheModel, rule="C06.R5"):
                 IndexMirror(ck, cm, T).check(rule, scope_roots=sc.root_exprs)
 
 
+# ---- C06.R7: the insertion is all-or-nothing ---------------------------------------------------------------------
+
+_PURE_BUILTINS = ("len", "isinstance", "issubclass", "id", "type", "bool", "callable", "hasattr")
+
+
+class FailureModel:
+    """What may leave by an exception in the middle of a cache operation.  Plain field reads, operations on the cache's OWN
+    containers (whether those succeed is what R1-R3 decide), building the entry record, a few side-effect free builtins and
+    logging are taken as not failing; so is a method of the cache class all of whose statements are of that kind (decided
+    recursively on its own graph, handlers included).  Everything else -- a call into the cached value, an estimator, a
+    store, an explicit raise / assert -- may fail."""
+
+    def __init__(self, ck, cm: CacheModel):
+        self.ck, self.cm = ck, cm
+        self.slots = {cm.map, cm.queue} | set(cm.aux_maps) | ({cm.refs} if cm.refs else set())
+        self._memo = {}
+
+    def _own_slot(self, e) -> bool:
+        return bool(self_attr(e)) and self_attr(e) in self.slots
+
+    def _record_class(self, call):
+        """the repository class a call constructs, when its constructor only stores what it is given"""
+        d = (A.dotted(call.func) or "").split(".")[-1]
+        if not d:
+            return False
+        for m in self.ck.repo.modules.values():
+            for n in m.tree.body:
+                if isinstance(n, ast.ClassDef) and n.name == d:
+                    for f in n.body:
+                        if isinstance(f, A.FUNC_TYPES) and f.name in ("__init__", "__post_init__", "__new__"):
+                            if any(isinstance(x, (ast.Call, ast.Raise, ast.Assert, ast.Subscript)) for x in ast.walk(f)):
+                                return False
+                    bases_ok = all((A.dotted(b) or "").split(".")[-1] in ("object", "NamedTuple") for b in n.bases)
+                    return bases_ok
+        return False
+
+    def _method(self, call):
+        f = call.func
+        if isinstance(f, ast.Attribute) and isinstance(f.value, ast.Name) and f.value.id in ("self", "cls", self.cm.cls.name):
+            return self.cm.cls.methods.get(f.attr)
+        return None
+
+    def method_cannot_fail(self, m, depth=0) -> bool:
+        k = m.qual
+        if k not in self._memo:
+            self._memo[k] = False  # a recursive helper is not presumed safe
+            if depth <= 3 and not any(isinstance(n, (ast.Yield, ast.YieldFrom, ast.Await)) for n in ast.walk(m.node)):
+                from ..cfg import CFG
+                g = CFG(m.node, "all", nonraising=lambda n, d=depth: self.nonraising(n, d + 1))
+                self._memo[k] = g.raise_exit not in g.reach([g.entry])
+        return self._memo[k]
+
+    def nonraising(self, n, depth=0) -> bool:
+        from ..fa import log_call
+        if isinstance(n, ast.Attribute):
+            return True
+        if isinstance(n, ast.Subscript):
+            return self._own_slot(n.value)
+        if isinstance(n, ast.Call):
+            if log_call(n):
+                return True
+            f = n.func
+            if isinstance(f, ast.Attribute) and self._own_slot(f.value):
+                return True
+            if isinstance(f, ast.Name) and f.id in _PURE_BUILTINS:
+                return True
+            m = self._method(n)
+            if m is not None:
+                return self.method_cannot_fail(m, depth)
+            if isinstance(f, (ast.Name, ast.Attribute)) and self._record_class(n):
+                return True
+        return False
+
+
+def check_insertion_atomic(ck, cm: CacheModel, R="C06.R7"):
+    ck.rule(R, "all-or-nothing insertion: between booking the size on the usage counter, storing the entry in the resident map and "
+               "queueing its key, no statement can fail (unless every way on from the failure completes the insertion or evicts the "
+               "key again): a failure in between leaves bytes booked that no resident entry accounts for, or an entry nobody counts", 1)
+    from ..cfg import CFG
+    fm = FailureModel(ck, cm)
+    for m in cm.inserts:
+        fa = FA(ck, m)
+        g = CFG(m.node, "all", nonraising=fm.nonraising)
+        live = g.reach([g.entry])
+        nodes = lambda sts: [i for s in sts for i in g.nodes_of(s) if i in live]
+        stores = [st for st in fa.stmts(ast.Assign) if any(isinstance(t, ast.Subscript) and self_attr(t.value, cm.map) for t in st.targets)]
+        if not stores:
+            continue
+        keys = {_xn(fa, t.slice, st) for st in stores for t in st.targets if isinstance(t, ast.Subscript) and self_attr(t.value, cm.map)}
+        books = [st for st in fa.stmts(ast.AugAssign) if isinstance(st.op, ast.Add) and self_attr(st.target, cm.counter)]
+        queued = [fa.stmt_of(c) for c in fa.calls() if A.call_attr(c) in ("append", "appendleft") and self_attr(A.call_recv(c), cm.queue)
+                  and c.args and _xn(fa, c.args[0], c) in keys]
+        undo = [fa.stmt_of(c) for c in fa.calls(cm.evict.name) if cm.is_self_call(c, cm.evict) and c.args and _xn(fa, c.args[0], c) in keys]
+        parts = [("the entry is stored in the resident map", stores), ("its size is booked on %s" % cm.counter, books),
+                 ("its key is put on the recency queue", queued)]
+        undo_n = set(nodes(undo))
+        for (what_a, sts_a) in parts:
+            for st in sts_a:
+                bad = None
+                for (what_b, sts_b) in parts:
+                    if sts_b is sts_a or not sts_b:
+                        continue
+                    bn = set(nodes(sts_b))
+                    for gnode in nodes([st]):
+                        if gnode in bn or gnode not in g.reach([g.entry], removed=bn):
+                            continue  # that half has happened by the time this one does
+                        # what runs after this half and before the other one (a failure of this statement itself leaves nothing behind)
+                        seen, hit, stack = set(), set(), [d for (d, l) in g.succ[gnode] if l != "exc"]
+                        while stack:
+                            x = stack.pop()
+                            if x in seen or x in undo_n:
+                                continue
+                            if x in bn:
+                                hit.add(x)
+                                continue
+                            seen.add(x)
+                            stack += [d for (d, l) in g.succ[x] if l != "exc"]
+                        for x in sorted(seen | hit):
+                            thrown = [d for (d, l) in g.succ[x] if l == "exc"]
+                            if not thrown:
+                                continue
+                            after = g.reach(thrown, removed=bn | undo_n)
+                            if g.exit in after or g.raise_exit in after:
+                                bad = (x, what_b)
+                                break
+                        if bad:
+                            break
+                    if bad:
+                        break
+                if bad:
+                    nd = g.node(bad[0])
+                    msg = "once %s, `%s` (line %s) may fail before %s, and nothing on the way out completes the insertion or evicts the key again: " \
+                          "the usage counter no longer equals what the resident entries account for" % (
+                              what_a, A.head(nd.ast) if nd.ast is not None else "?", getattr(nd.ast, "lineno", "?"), bad[1])
+                else:
+                    msg = "nothing can fail between this half of the insertion and the others"
+                ck.ob(R, fa.key(st, "ins-atomic"), bad is None, msg, fa.where(st))
+
+
 def check(ck):
     from .memo import check_new_memo_tables
     ck.run(check_new_memo_tables, ck, "C06.M1", ('storage_base',))
@@ -2166,6 +2305,7 @@ def check(ck):
     ck.run(check_weak_fallback, ck, cm, "C06.R3")
     ck.run(check_queue_unbounded, ck, cm, "C06.R3")
     ck.run(check_estimates_bounded_below, ck, cm, "C06.R1")
+    ck.run(check_insertion_atomic, ck, cm, "C06.R7")
     ck.run(check_replace_on_put, ck, cm, "C06.R4")
     ck.run(check_forget, ck, cm, "C06.R5")
     ck.run(check_forget_scope, ck, cm, "C06.R5")
